@@ -226,28 +226,41 @@ Theorem C06_access_every_schedule : forall pip sh sched r reqs,
 Proof. exact access_every_schedule_results_l. Qed.
 Print Assumptions C06_access_every_schedule.
 
-(* ---- with those three shared effects set aside a lookup reads nothing but its arguments ---- *)
-(* the answer is a function of table, request and the cursor of the answering route ... *)
-Theorem C06_lookup_pure_modulo_shared : forall hosts path host s,
-  fst (lookup hosts path host s) = lookup_pure hosts path host (lk_cursor s).
+(* ---- a lookup and its shared effects ---- *)
+(* [lookup]: the sequential Table.Lookup over the candidate hosts in visiting order, self-redirect skip
+   included; shared state = one cursor per route and the targets' RedirectURL fields.
+   (A mechanism lemma, true by the shape of the model: [lookup_pure] is [lookup] with the state threaded
+   out; its content is that the picks of one lookup never read a cursor an earlier pick of the same lookup
+   advanced.  The tie of "the lookup reads nothing else" to the code is the correspondence run: class
+   lookup-seq runs every request twice on the real table with different cursors on all other routes and a
+   different glob cache and demands the same answer.) *)
+Theorem C06_lookup_pure_modulo_shared : forall hosts path host proto s,
+  fst (lookup hosts path host proto s) = lookup_pure hosts path host proto (lk_cursor s).
 Proof. exact lookup_pure_modulo_shared_l. Qed.
 Print Assumptions C06_lookup_pure_modulo_shared.
 
-Theorem C06_lookup_reads_one_cursor : forall hosts path host f g,
-  (forall id r, find_host path hosts 0 = Some (id, r) -> f id = g id) ->
-  lookup_pure hosts path host f = lookup_pure hosts path host g.
-Proof. exact lookup_pure_one_cursor_l. Qed.
+(* the answer reads ONE cursor, that of the answering route: with any other cursor values on all other routes
+   (those of skipped self-redirect routes included - their pick is made and discarded) the answer is the same;
+   a miss reads none.  [rings_ok]: every candidate route can pick (one target, or a non-empty ring). *)
+Theorem C06_lookup_reads_one_cursor : forall hosts path host proto f g res, rings_ok hosts ->
+  lookup_pure hosts path host proto f = Ok (Some res) -> g (lk_route res) = f (lk_route res) ->
+  lookup_pure hosts path host proto g = Ok (Some res).
+Proof. exact lookup_reads_one_cursor_l. Qed.
 Print Assumptions C06_lookup_reads_one_cursor.
 
-(* ... and its only effect is on that route's cursor (since ddf101c no target is written) *)
-Theorem C06_lookup_frame : forall hosts path host s r s',
-  lookup hosts path host s = (Ok (Some r), s') ->
-  (forall id, eq_rid id (lk_route r) = false -> lk_cursor s' id = lk_cursor s id) /\
-  lk_redirect s' = lk_redirect s.
+Theorem C06_lookup_miss_reads_none : forall hosts path host proto f g, rings_ok hosts ->
+  lookup_pure hosts path host proto f = Ok None -> lookup_pure hosts path host proto g = Ok None.
+Proof. exact lookup_miss_reads_none_l. Qed.
+Print Assumptions C06_lookup_miss_reads_none.
+
+(* the only shared effect of a lookup is advancing load balancing: no target is written; every cursor is
+   unchanged or advanced by exactly one; and only [touched] routes advance: the answering route AND every
+   skipped self-redirect route with several targets (Table.lookup picks before Table.Lookup decides to skip:
+   the skipped route's cursor has moved although it does not answer - load-balancing state, nothing else) *)
+Theorem C06_lookup_frame : forall hosts path host proto s,
+  lk_redirect (snd (lookup hosts path host proto s)) = lk_redirect s /\
+  forall id, lk_cursor (snd (lookup hosts path host proto s)) id = lk_cursor s id \/
+             (lk_cursor (snd (lookup hosts path host proto s)) id = N.modulo (lk_cursor s id + 1) two64
+              /\ touched path host proto hosts 0 (fst (lookup hosts path host proto s)) id).
 Proof. exact lookup_frame_l. Qed.
 Print Assumptions C06_lookup_frame.
-
-Theorem C06_lookup_miss_no_effect : forall hosts path host s s',
-  lookup hosts path host s = (Ok None, s') -> s' = s.
-Proof. exact lookup_miss_no_effect_l. Qed.
-Print Assumptions C06_lookup_miss_no_effect.
